@@ -8,6 +8,7 @@ import (
 	"strconv"
 
 	"github.com/samaritan-proxy/samaritan/verifrt/sched"
+	vsync "github.com/samaritan-proxy/samaritan/verifrt/vsync"
 )
 
 // ---------------------------------------------------------------------------
@@ -63,11 +64,16 @@ type c12ctx struct {
 	req *simpleRequest
 }
 
+var c12table [slotNum]*instance
+
 func newC12() *c12ctx {
 	u := vfUpstream(vfConfig(0, nil))
-	for i := range u.slots {
-		u.slots[i] = &instance{ID: strconv.Itoa(i), Addr: strconv.Itoa(i)}
+	if c12table[0] == nil {
+		for i := range c12table {
+			c12table[i] = &instance{ID: strconv.Itoa(i), Addr: strconv.Itoa(i)}
+		}
 	}
+	u.slots = c12table
 	return &c12ctx{u: u, req: newSimpleRequest(newStringArray("set", "k", "v"))}
 }
 
@@ -211,7 +217,45 @@ func c12run(env sched.Env) *sched.Report {
 	return rep
 }
 
+// C12 (S): routing is a pure function of the key also when sessions route concurrently.
+// alphabet  3 threads x 2 routings over 4 keys with pairwise different slots; bound P<=2/3
+// oracle    every routing returns the specification's slot
+func c12concBody() {
+	c := newC12()
+	keys := [][]byte{[]byte("a"), []byte("b"), []byte("{a}x"), []byte("zz"), []byte("q{b}")}
+	plan := [][]int{{0, 1}, {1, 3}, {2, 4}}
+	var wg vsync.WaitGroup
+	bad := ""
+	for t, p := range plan {
+		p := p
+		t := t
+		wg.Add(1)
+		sched.Go(func() {
+			defer wg.Done()
+			req := newSimpleRequest(newStringArray("set", "k", "v"))
+			for _, ki := range p {
+				addr, _ := c.u.chooseHost(keys[ki], req)
+				if addr != strconv.Itoa(refSlot(keys[ki])) {
+					bad = fmt.Sprintf("thread %d: key %q routed by slot %s, specification says %d", t, keys[ki], addr, refSlot(keys[ki]))
+				}
+			}
+		})
+	}
+	wg.Wait()
+	if bad != "" {
+		sched.Fail("slot-mismatch / concurrent routing", bad)
+	}
+	sched.SetOutcome("ok")
+}
+
 func init() {
+	sched.Register(&sched.Scenario{Name: "C12/concurrent", Setup: func(tier string) (sched.Config, func()) {
+		b := sched.Bounds{P: 2}
+		if tier == "thorough" {
+			b.P = 3
+		}
+		return sched.Config{Bounds: b, Iterative: true}, c12concBody
+	}})
 	sched.Register(&sched.Scenario{Name: "C12/slots", Custom: c12run, ReplayCustom: func(in json.RawMessage) []sched.Failure {
 		var key []byte
 		json.Unmarshal(in, &key)
